@@ -353,9 +353,35 @@ impl LightClientProtocol {
         let (old_total_difficulty, prev_last_header) = self.storage.get_last_state();
         let new_total_difficulty = new_prove_state.get_last_header().total_difficulty();
         if new_total_difficulty > old_total_difficulty {
-            let reorg_last_headers = new_prove_state.get_reorg_last_headers();
+            let prev_last_header_number: BlockNumber = prev_last_header.raw().number().unpack();
+            let reorg_last_headers = {
+                let reorg_last_headers = new_prove_state.get_reorg_last_headers();
+                // The reorg headers are relative to the start of the request, which is NOT always
+                // the previous last header in the storage: when no more than last-n blocks are
+                // missing, the start of the request was moved to an earlier stored header; the peer
+                // considers it as an ancestor and sends no reorg headers even the previous last
+                // header was forked.
+                // So, check whether the previous last header is in the new chain at first.
+                let prev_last_hash = prev_last_header.calc_header_hash();
+                let is_prev_in_new_chain = new_prove_state
+                    .get_last_headers()
+                    .iter()
+                    .chain(Some(new_prove_state.get_last_header().header()))
+                    .find(|header| header.number() == prev_last_header_number)
+                    .map(|header| header.hash() == prev_last_hash);
+                match is_prev_in_new_chain {
+                    // Forked, but no reorg headers: find the fork point with the new last headers.
+                    // (If the previous last header is block#1, there are no stored last n headers
+                    // to compare, see below.)
+                    Some(false)
+                        if reorg_last_headers.is_empty() && prev_last_header_number > 1 =>
+                    {
+                        new_prove_state.get_last_headers()
+                    }
+                    _ => reorg_last_headers,
+                }
+            };
             if reorg_last_headers.is_empty() {
-                let prev_last_header_number: BlockNumber = prev_last_header.raw().number().unpack();
                 // If previous last header is block#1, that means there are no previous last n
                 // headers, so we could NOT distinguish whether the block#1 is a fork block or not.
                 // For safety, just remove the block#1.
